@@ -26,9 +26,9 @@ include!("@VERIF@/contracts/kuznyechik/api_common.inc");
 // @ob name=a_api_enc cfg=compact props=C07,C20 fn=kuznyechik::Kuznyechik::new,kuznyechik::Kuznyechik::encrypt_with_backend,kuznyechik::KuznyechikEnc::new,kuznyechik::KuznyechikEnc::encrypt_with_backend uses=c_expand,c_enc_block timeout=600
 // @ob name=a_api_dec cfg=compact props=C07,C20 fn=kuznyechik::Kuznyechik::new,kuznyechik::Kuznyechik::decrypt_with_backend uses=c_expand,c_dec_block timeout=600
 // @ob name=a_api_dec_only cfg=compact props=C07,C20 fn=kuznyechik::KuznyechikDec::new,kuznyechik::KuznyechikDec::decrypt_with_backend uses=c_expand,c_dec_block timeout=600
-// @ob name=r_roundtrip cfg=compact props=C01 kind=lemma fn=kuznyechik::Kuznyechik::encrypt_with_backend,kuznyechik::Kuznyechik::decrypt_with_backend,kuznyechik::Kuznyechik::from uses=c_lsx,c_lsx_inv,l_l_inverse,l_l_inverse_rev,l_s_inverse timeout=600
-// @ob name=r_roundtrip_rev cfg=compact props=C01 kind=lemma fn=kuznyechik::Kuznyechik::encrypt_with_backend,kuznyechik::Kuznyechik::decrypt_with_backend,kuznyechik::Kuznyechik::from uses=c_lsx,c_lsx_inv,l_l_inverse,l_l_inverse_rev,l_s_inverse timeout=600
-// @ob name=r_roundtrip_halves cfg=compact props=C01,C12 kind=lemma fn=kuznyechik::KuznyechikEnc::encrypt_with_backend,kuznyechik::KuznyechikDec::decrypt_with_backend,kuznyechik::KuznyechikDec::from uses=c_lsx,c_lsx_inv,l_l_inverse,l_l_inverse_rev,l_s_inverse timeout=600
+// @ob name=r_roundtrip cfg=compact props=C01 kind=lemma fn=kuznyechik::Kuznyechik::encrypt_with_backend,kuznyechik::Kuznyechik::decrypt_with_backend,kuznyechik::Kuznyechik::from uses=c_lsx,c_lsx_inv,l_ls_inverse timeout=600
+// @ob name=r_roundtrip_rev cfg=compact props=C01 kind=lemma fn=kuznyechik::Kuznyechik::encrypt_with_backend,kuznyechik::Kuznyechik::decrypt_with_backend,kuznyechik::Kuznyechik::from uses=c_lsx,c_lsx_inv,l_ls_inverse timeout=600
+// @ob name=r_roundtrip_halves cfg=compact props=C01,C12 kind=lemma fn=kuznyechik::KuznyechikEnc::encrypt_with_backend,kuznyechik::KuznyechikDec::decrypt_with_backend,kuznyechik::KuznyechikDec::from uses=c_lsx,c_lsx_inv,l_ls_inverse timeout=600
 // @ob name=k_len cfg=compact props=C11 kind=bounded bound="slice length <= 300" fn=kuznyechik::Kuznyechik::new_from_slice uses=c_expand timeout=300
 // @ob name=k_len_enc cfg=compact props=C11 kind=bounded bound="slice length <= 300" fn=kuznyechik::KuznyechikEnc::new_from_slice uses=c_expand timeout=300
 // @ob name=k_len_dec cfg=compact props=C11 kind=bounded bound="slice length <= 300" fn=kuznyechik::KuznyechikDec::new_from_slice uses=c_expand timeout=300
